@@ -90,8 +90,9 @@ theorem close_idempotent (cfg : Cfg) (hw : Wf cfg) : CloseIdempotent cfg := by
     have hpu : s.poolUp = false := (hg.closed hcl).2.2.2.2
     have hcli : (s.mapCli dropEffect).cli = s.cli := by
       funext j; simpa using dropEffect_closed s.cfg (s.cli j) hk (by simpa [hcl] using hg.cli j)
+    have hw' : closeWaits s = false := hg.closeWaits_false
     have : poolClose s = some s := by
-      simp only [poolClose, hb, baseClose, hcl, if_true]
+      simp only [poolClose, hw', baseClose, hcl, if_true]
       simp
       cases s; simp_all [St.mapCli]
     simp [this]
@@ -219,6 +220,78 @@ theorem close_passes_client_inside_disconnect_hook (s : St) (k : Nat) (hk : s.cf
       simp [baseClose, hcl, St.mapCli, closeEffect, shutOne, hp]; split <;> first | rfl | exact hp
     refine ⟨dedRelease (baseClose s) k, by simp [step, hp', hk], ?_, ?_, ?_⟩ <;>
       (unfold dedRelease afterEnd; split <;> simp [baseClose, hcl])
+
+/-! ### closing a pool whose workers are busy reading -/
+
+/-- the obligation: the code's `ThreadPoolServer.close()` ends the connections' streams BEFORE it joins the workers -
+measured on the live `close()` on every run (stand-in threads and connection recording the order of events); false on a
+tree that joins first: there `close()` never returns while one client holds an incomplete frame open -/
+theorem pool_close_unblocks_workers : Gen.Srv.poolCloseUnblocksWorkers = true := by decide
+
+/-- **closing a pool with workers blocked in reads** (clients holding incomplete frames open - any number of them, any
+state of the queue; the C17 run-level theorems have no such clients in their alphabet): unless application code holds it
+up (`hookHolds`: a blocking `on_disconnect`), `close()` returns, the listener is closed, no worker is left blocked, and
+every client the pool had in `fd_to_conn` - the ones workers were blocked on included - is given end-of-stream, its
+connection closed, its descriptor released, its entry removed -/
+theorem pool_close_ends_blocked_clients (s : St) (hk : s.cfg.kind = .pool) (hcl : s.closedFlag = false)
+    (hu : s.cfg.closeUnblocks = true) (hh : ∀ k ∈ s.ids, hookHolds (s.cli k) = false) :
+    ∃ s', step s .serverClose = .ok (s', .none) ∧ s'.listening = false ∧ s'.closedFlag = true ∧ s'.blocked = [] ∧
+      s'.poolUp = false ∧
+      ∀ k, (s.cli k).inFd = true →
+        (s'.cli k).shut = true ∧ (s'.cli k).inFd = false ∧ (s'.cli k).connOpen = false ∧ (s'.cli k).phase = .done ∧
+        (s'.cli k).srvFd = false ∧ (s'.cli k).tracked = false := by
+  have hw : closeWaits s = false := by
+    have : s.ids.any (fun k => hookHolds (s.cli k)) = false := by
+      rw [List.any_eq_false]; intro k hk'; simpa using hh k hk'
+    simp [closeWaits, this, hu]
+  refine ⟨{ ((baseClose s).mapCli dropEffect) with poolUp := false, blocked := [] }, by simp [step, hk, poolClose, hw],
+    by simp [baseClose, hcl, St.mapCli], by simp [baseClose, hcl, St.mapCli], rfl, rfl, ?_⟩
+  intro k hin
+  have hc : (closeEffect (s.cli k)).inFd = true := by
+    unfold closeEffect shutOne endServeD endServe release closeConn
+    repeat' split
+    all_goals simp_all
+  simp only [baseClose, hcl, Bool.false_eq_true, if_false, St.mapCli, dropEffect, hc, if_true]
+  refine ⟨?_, ?_, ?_, ?_, ?_, ?_⟩
+  · simp [endServe, release]
+  · trivial
+  · simp only [endServe, release, closeConn]; split <;> simp_all
+  · simp [endServe, release]
+  · simp [endServe, release]
+  · have ht : (closeEffect (s.cli k)).tracked = false := by
+      unfold closeEffect
+      split
+      · rfl
+      · rename_i h; split <;> simpa using h
+    simp only [endServe, release, closeConn]; split <;> simp_all
+
+/-- the witness `connect 1; call 1; connect 2; raw 2 [incomplete frame]; serverClose` on a pool of two workers.  With the
+code that joins its workers first (`closeUnblocks := false`) `close()` does not return (and, not modelled further: the
+listener is closed, nobody has seen end-of-stream, no hook has run); with the repaired order it returns and both
+clients - the idle one and the one a worker was blocked on - are terminated, each disconnect hook run once -/
+def hangOps : List Op := [.connect 1 .good, .call 1 .ping, .connect 2 .good, .raw 2 [.part]]
+
+theorem C17_pool_close_hang_counterexample :
+    (run (init { kind := .pool, auth := false, nb := 2, closeUnblocks := false }) hangOps).blocked = [2] ∧
+    (poolClose (run (init { kind := .pool, auth := false, nb := 2, closeUnblocks := false }) hangOps)).isNone = true ∧
+    (poolClose (run (init { kind := .pool, auth := false, nb := 2 }) hangOps)).isSome = true ∧
+    (run (init { kind := .pool, auth := false, nb := 2 }) (hangOps ++ [.serverClose])).closedFlag = true ∧
+    ((run (init { kind := .pool, auth := false, nb := 2 }) (hangOps ++ [.serverClose])).cli 1).shut = true ∧
+    ((run (init { kind := .pool, auth := false, nb := 2 }) (hangOps ++ [.serverClose])).cli 2).shut = true ∧
+    ((run (init { kind := .pool, auth := false, nb := 2 }) (hangOps ++ [.serverClose])).cli 1).discHooks = 1 ∧
+    ((run (init { kind := .pool, auth := false, nb := 2 }) (hangOps ++ [.serverClose])).cli 2).discHooks = 1 ∧
+    ((run (init { kind := .pool, auth := false, nb := 2 }) (hangOps ++ [.serverClose])).cli 2).inFd = false ∧
+    (run (init { kind := .pool, auth := false, nb := 2 }) (hangOps ++ [.serverClose])).blocked = [] := by decide
+
+/-- the hypotheses of `pool_close_ends_blocked_clients` are met by that state (a worker blocked, nothing holding) -/
+example : (∀ k ∈ (run (init { kind := .pool, auth := false, nb := 2 }) hangOps).ids,
+      hookHolds ((run (init { kind := .pool, auth := false, nb := 2 }) hangOps).cli k) = false) ∧
+    (run (init { kind := .pool, auth := false, nb := 2 }) hangOps).blocked ≠ [] ∧
+    ((run (init { kind := .pool, auth := false, nb := 2 }) hangOps).cli 2).inFd = true := by decide
+
+/-- application code does hold `close()` up, with either order: a worker inside a blocking `on_disconnect` is joined -/
+example : (poolClose (run (init { kind := .pool, auth := false, nb := 2 })
+      [.connect 1 .good, .call 1 .arm, .abruptClose 1])).isNone = true := by decide
 
 /-! ### the pool's table is keyed by descriptor NUMBER: a departed client removes only its own entry -/
 
